@@ -100,7 +100,7 @@ def excusable(f, mode):
 def make_app(e, p, sym):
     heu = NONE() if not p.get('heu') else Some(Enum(p['heu'], [], 'Heuristic'))
     vals = dict(input=StrBuf('input.adf'), rust_log=NONE(), implementation=StrBuf(p['mode']), verbose=0, quiet=False,
-                sort_lex=p.get('sort') == 'lx', sort_alphan=p.get('sort') == 'an', heu=heu, export=NONE(), counter=NONE())
+                sort_lex=p.get('sort') == 'lx', sort_alphan=p.get('sort') == 'an', heu=heu, export=Some(StrBuf(p['export'])) if p.get('export') else NONE(), counter=NONE())
     vals['import'] = False
     for f in SEM_FLAGS: vals[f] = sym[f] if f in sym else bool(p.get('fixed', {}).get(f, False))
     return Struct([vals[f] for f in e.structs['App']])
@@ -152,6 +152,40 @@ def cli_job(e, p):
                        case={'text': text, 'mode': mode, 'sort': p.get('sort', 'none'), 'flags': [f]}, role='%s:%s' % (mode, f))
     if panicked is not None and orc is not None: raise RustPanic(panicked)
     return {'mode': mode, 'stdout': stdout[:200], 'panicked': panicked is not None}
+
+def export_job(e, p):
+    """C14, CLI half: `--export F` must never overwrite an existing file.  The file system is a stub: Path::exists answers with a solver
+    variable, File::create / serde_json::to_writer are recorded.  Violation: a create (which truncates) of a path that exists, or a create
+    that was not preceded by an existence test of that path answering `no`."""
+    text = p['text']
+    sym = {f: z3.Bool('flag_' + f) for f in p.get('free', [])}
+    app = make_app(e, dict(p, mode=p.get('mode', 'naive')), sym)
+    e.hooks['files'] = {'input.adf': text}
+    run = [f for nm, f in e.fns.items() if nm.endswith('::run') and 'bin/src/main.rs' in nm][0]
+    try: e.call_mir(run, [Ref([app], 0)])
+    except RustPanic: pass
+    ev = e.hooks.get('fs_events', [])
+    absent = set()
+    for x in ev:
+        if x[0] == 'exists' and x[2] is False: absent.add(x[1])
+        if x[0] == 'exists' and x[2] is True: absent.discard(x[1])
+        if x[0] == 'create' and (x[1] not in absent or p.get('canary')):
+            report(e, 'export-overwrites', what='--export %s: the file is created (truncated) although it %s' % (x[1], 'exists' if any(y[0] == 'exists' and y[1] == x[1] for y in ev) else 'was never tested for existence'),
+                   case={'text': text, 'mode': p.get('mode', 'naive'), 'sort': 'none', 'flags': sorted(f for f, b in sym.items() if sat_model(e, b) is not None), 'export_existing': True}, role='export')
+    return {'events': [x[0] for x in ev]}
+
+
+def replay_export(ctx, v):
+    """real binary, real file system: --export onto an existing file must leave it untouched"""
+    binp = cli_binary(ctx); case = v['case']
+    with tempfile.TemporaryDirectory() as d:
+        fn = os.path.join(d, 'input.adf'); open(fn, 'w').write(case['text'])
+        out = os.path.join(d, 'out.json'); open(out, 'w').write('SENTINEL')
+        args = [binp, '--lib', case['mode'], '--export', out] + [CLI[f] for f in case['flags']] + [fn]
+        r = subprocess.run(args, capture_output=True, text=True, timeout=60, env=dict(os.environ, RUST_LOG='error'))
+        after = open(out).read()
+    if after != 'SENTINEL': return 'reproduced', {'args': args[1:], 'problems': ['the existing export file was overwritten (now %d bytes)' % len(after)]}
+    return 'not-reproduced', {'args': args[1:], 'exit': r.returncode}
 
 # ------------------------------------------------------------------ native side: the real binary
 
